@@ -19,6 +19,10 @@ variable {α : Type} [Add α] [Sub α] [Mul α] [Div α] [Neg α] [OfScientific 
 theorem C01_src_step (calcStep gravity : α) (dbm : α → α) (wind : Vec α) (density mach : α) (s : St α) :
     Src.step calcStep gravity dbm wind density mach s = step calcStep gravity dbm wind density mach s := rfl
 
+/-- the state `_integrate` starts from: muzzle displaced by the canted sight height, launch along the barrel direction -/
+theorem C01_src_initial_state (r : Run α) (barrelElevation : α) :
+    Src.initial_state r barrelElevation = initialState r barrelElevation := rfl
+
 theorem C01_src_vec_magnitude (v : Vec α) : Src.vec_magnitude v = v.mag := rfl
 theorem C01_src_vec_mul_by_const (v : Vec α) (c : α) : Src.vec_mul_by_const v c = v.smul c := rfl
 theorem C01_src_vec_add (v w : Vec α) : Src.vec_add v w = v.add w := rfl
